@@ -632,7 +632,7 @@ impl Future for Executor {
                         .with(|p| p.borrow_mut().take())
                         .unwrap_or_else(|| "<no message>".into());
                     // a panic raised inside the code under test is a violation whichever task ran it
-                    if engine || PANIC_IS_VIOLATION.with(|p| p.get()) || msg.contains(" at /repo/") {
+                    if engine || PANIC_IS_VIOLATION.with(|p| p.get()) || msg.contains("/repo/") {
                         violation("panic", format!("task {} panicked: {}", name, msg));
                     } else {
                         harness_error("sim-task-panic", format!("task {} panicked: {}", name, msg));
